@@ -1,79 +1,8 @@
 (** C18 — proofs *)
 From Coq Require Import ZArith List Bool Lia.
-From ErgV Require Import Emit.Text Emit.Json Emit.JsonSpec.
+From ErgV Require Import Emit.Text Emit.TextProofs Emit.Json Emit.JsonSpec.
 Import ListNotations.
 Open Scope Z_scope.
-
-(* ------------------------------------------------------------------ digits *)
-Lemma digits_val_acc : forall l a, fold_left (fun a d => 10 * a + d) l a = a * 10 ^ Z.of_nat (length l) + digits_val l.
-Proof.
-  unfold digits_val. induction l as [|d l IH]; intros a.
-  - cbn. lia.
-  - cbn [fold_left length]. rewrite IH. rewrite (IH (10 * 0 + d)).
-    rewrite Nat2Z.inj_succ, Z.pow_succ_r by lia. lia.
-Qed.
-
-Lemma digits_val_snoc : forall l d, digits_val (l ++ [d]) = 10 * digits_val l + d.
-Proof.
-  intros. unfold digits_val. rewrite fold_left_app. cbn. reflexivity.
-Qed.
-
-Lemma canon_digits_snoc : forall l d, l <> [] -> canon_digits l = true -> is_digit_val d = true ->
-  (match l with [x] => negb (x =? 0) | _ => true end) = true -> canon_digits (l ++ [d]) = true.
-Proof.
-  intros l d Hne Hc Hd Hz. unfold canon_digits in *.
-  apply andb_true_iff in Hc. destruct Hc as [Ha Hb].
-  rewrite forallb_app, Ha. cbn [forallb]. rewrite Hd. cbn.
-  destruct l as [|x [|y l]]; [congruence| |]; cbn in *; auto.
-Qed.
-
-Lemma dec_digits_spec : forall fuel n, 0 <= n < 2 ^ Z.of_nat fuel -> (0 < fuel)%nat ->
-  digits_val (dec_digits fuel n) = n /\ canon_digits (dec_digits fuel n) = true /\
-  (n <> 0 -> match dec_digits fuel n with x :: _ => x <> 0 | [] => False end).
-Proof.
-  induction fuel as [|f IH]; intros n Hn Hf.
-  - lia.
-  - cbn [dec_digits]. destruct (n <? 10) eqn:E.
-    + apply Z.ltb_lt in E.
-      assert (H1 : 0 <=? n = true) by (apply Z.leb_le; lia).
-      assert (H2 : n <=? 9 = true) by (apply Z.leb_le; lia).
-      split; [|split].
-      * unfold digits_val. cbn. lia.
-      * unfold canon_digits, is_digit_val. cbn [forallb]. rewrite H1, H2. reflexivity.
-      * intros Hz. exact Hz.
-    + apply Z.ltb_ge in E.
-      assert (Hq : 0 <= n / 10 < 2 ^ Z.of_nat f).
-      { split. apply Z.div_pos; lia.
-        rewrite Nat2Z.inj_succ, Z.pow_succ_r in Hn by lia.
-        apply Z.div_lt_upper_bound; lia. }
-      assert (Hf0 : (0 < f)%nat).
-      { destruct f; [|lia]. cbn in Hn. lia. }
-      destruct (IH _ Hq Hf0) as (Hv & Hc & Hh).
-      assert (Hq0 : n / 10 <> 0).
-      { intro H0. assert (n / 10 >= 1). { apply Z.le_ge. apply Z.div_le_lower_bound; lia. } lia. }
-      specialize (Hh Hq0).
-      assert (Hm : 0 <= n mod 10 < 10) by (apply Z.mod_pos_bound; lia).
-      rewrite digits_val_snoc, Hv.
-      repeat split.
-      * rewrite (Z.div_mod n 10) at 3 by lia. lia.
-      * apply canon_digits_snoc; auto.
-        -- destruct (dec_digits f (n / 10)); [contradiction|congruence].
-        -- unfold is_digit_val. apply andb_true_iff. split; [apply Z.leb_le|apply Z.leb_le]; lia.
-        -- destruct (dec_digits f (n / 10)) as [|x [|y l]]; auto.
-           apply negb_true_iff. apply Z.eqb_neq. exact Hh.
-      * intros _. destruct (dec_digits f (n / 10)); [contradiction|]. cbn. exact Hh.
-Qed.
-
-Lemma nat_digits_spec : forall n, 0 <= n ->
-  digits_val (nat_digits n) = n /\ canon_digits (nat_digits n) = true.
-Proof.
-  intros n Hn. unfold nat_digits.
-  assert (H : 0 <= n < 2 ^ Z.of_nat (S (Z.to_nat (Z.log2 n)))).
-  { split; [assumption|]. rewrite Nat2Z.inj_succ, Z2Nat.id by apply Z.log2_nonneg.
-    destruct (Z.eq_dec n 0) as [->|Hz]. cbn; lia.
-    apply Z.log2_spec. lia. }
-  destruct (dec_digits_spec _ _ H) as (A & B & _). lia. auto.
-Qed.
 
 (* ------------------------------------------------------------------ numbers *)
 Definition safe (rest : text) : bool :=
